@@ -67,6 +67,16 @@ func TestVerifC12(t *testing.T) {
 	for i := 0; i < hk.N(300, 6000); i++ {
 		gcs = append(gcs, gcase{rng.Bytes(32 * 4), chunks[rng.Intn(len(chunks))], "random"})
 	}
+	// streams that end exactly behind the accepted candidate, whose source reports io.EOF TOGETHER with the last bytes
+	// (io.Reader: "it may return the (non-nil) error from the same call"): all 32 bytes were delivered, this is a key
+	for i := 0; i < hk.N(40, 400); i++ {
+		var st []byte
+		for b := 0; b < i%3; b++ {
+			st = append(st, bad[(i+b)%5]...)
+		}
+		st = append(st, ref.B32(randScalar(rng))...)
+		gcs = append(gcs, gcase{st, chunks[i%len(chunks)], "eof-with-last-bytes"})
+	}
 	// finite streams that END before an acceptable candidate is complete: every length 0..31 after 0..2 rejected ones
 	for nbad := 0; nbad < 3; nbad++ {
 		for l := 0; l < 32; l++ {
@@ -115,6 +125,7 @@ func TestVerifC12(t *testing.T) {
 		}
 		rd := newScript(g.stream)
 		rd.chunk = g.chunk
+		rd.errWithFull = g.plan == "eof-with-last-bytes"
 		var priv, x, y []byte
 		var err error
 		p, msg, _, _ := hk.Try(func() { priv, x, y, err = GenerateKey(rd) })
